@@ -291,7 +291,8 @@ fn err_json(e: &tera::Error) -> J {
     match e.kind() {
         ErrorKind::SyntaxError(r) | ErrorKind::RenderingError(r) => json!({
             "ok": false, "kind": kind, "file": r.filename(), "msg": r.message(),
-            "span": span_json(r.span()), "disp": disp, "disp_ok": disp_ok
+            "span": span_json(r.span()), "disp": disp, "disp_ok": disp_ok,
+            "notes": r.verif_notes().iter().map(|(l, f, s)| json!({"label": l, "file": f, "span": span_json(s)})).collect::<Vec<_>>()
         }),
         ErrorKind::Io(k) => {
             json!({"ok": false, "kind": kind, "io": format!("{k:?}"), "disp": disp, "disp_ok": disp_ok})
